@@ -23,6 +23,7 @@ package object
 //@   returns str
 //@   pure
 //@   ensures [format] {C12,C02} str == s.Name + " <" + s.Email + "> " + fmtd(time_unix(s.Timestamp), 0) + " " + tzStr(time_off(s.Timestamp))
+//@   ensures [one-line] {C02} !contains(s.Name, "\n") && !contains(s.Email, "\n") ==> !contains(str, "\n")
 
 // ---- trees in memory: a forest is a []*Node; a node without children is a file
 
@@ -98,13 +99,24 @@ package object
 //@     && kindOfName(kindName(t)) == t && isKindName(kindName(t))
 //@     && payloadOf(objBytes(t, d)) == d
 
+// objects of different kinds have different ids (collision-freedom of SHA-1 plus the kind word in the header): storing a
+// commit never replaces a tree
+//@ lemma [ids-differ-by-kind] {C02,C03} forall t1 Type, d1 string, t2 Type, d2 string {objBytes(t1, d1), objBytes(t2, d2)} :: isKind(t1) && isKind(t2) && t1 != t2 ==> objBytes(t1, d1) != objBytes(t2, d2) && sha1(objBytes(t1, d1)) != sha1(objBytes(t2, d2))
+
 // the object files live two levels below <root>/objects: no other file of the repository is one of them
 //@ lemma [objects-apart] {C03,C16} forall root string, h string, n string {pjoin(root, n), objPath(root, h)} :: validName(n) && n != "objects" && len(h) >= 2 ==> pjoin(root, n) != objPath(root, h) && pjoin(root, n) != objDir(root, h)
+
+// different ids name different files, and no object file is an object directory
+//@ lemma [objpaths-apart] {C02,C03} forall root string, h1 string, h2 string {objPath(root, h1), objPath(root, h2)} :: len(h1) == 20 && len(h2) == 20 && h1 != h2 ==> objPath(root, h1) != objPath(root, h2) && objPath(root, h1) != objDir(root, h2)
 
 // kind of whatever is stored under an id: the word before the first blank of the decompressed content's header
 //@ pred plainOf(f, root, h) := zlibDec(content(f, objPath(root, h)))
 //@ pred storedKind(f, root, h) := kindOfName(splitHead(bsub(plainOf(f, root, h), 0, indexOfByte(plainOf(f, root, h), 0, 0)), " "))
 //@ pred commitStored(f, root, h) := isFile(f, objPath(root, h)) && storedKind(f, root, h) == CommitObject
+// the snapshot a stored commit names, as any reader of the format takes it from the bytes on disk (C05, C03)
+//@ pred commitTreeOf(f, root, h) := hdrTree("", payloadOf(plainOf(f, root, h)))
+//@ pred commitParentsOf(f, root, h) := hdrParents(emptyStrings(), payloadOf(plainOf(f, root, h)))
+//@ pred treeStored(f, root, h) := isFile(f, objPath(root, h)) && storedKind(f, root, h) == TreeObject
 
 //@ func NewObject
 //@   returns o, err
@@ -160,16 +172,66 @@ package object
 
 // ---- commits
 
+// What a reader of the commit format takes from a commit's text (C05, C02): the header is the run of lines up to the
+// first line without a blank; a "tree" line names the snapshot (the last one wins), every "parent" line adds a parent,
+// in order. Nothing after the header is a field, whatever it looks like. hdrTree/hdrParents are defined by recursion over
+// the lines (one unfolding per line read; the definitions are only instantiated at texts marked scanStep: where a scanner splits off a line, and in the lemmas below).
+//@ pred nextTok(s) := ite(contains(s, "\n"), splitHead(s, "\n"), s)
+//@ pred nextRest(s) := ite(contains(s, "\n"), splitTail(s, "\n"), "")
+//@ pred hdrEnds(s) := len(s) == 0 || !contains(nextTok(s), " ")
+//@ ghost hdrTree(acc string, rest string) string
+//@ axiom [hdrTree-def] forall acc string, rest string {hdrTree(acc, rest), scanStep(rest)} :: hdrTree(acc, rest) == ite(hdrEnds(rest), acc, hdrTree(ite(splitHead(nextTok(rest), " ") == "tree", unhex(splitTail(nextTok(rest), " ")), acc), nextRest(rest)))
+//@ ghost hdrParents(acc []sha.SHA1, rest string) []sha.SHA1
+//@ axiom [hdrParents-def] forall acc []sha.SHA1, rest string {hdrParents(acc, rest), scanStep(rest)} :: hdrParents(acc, rest) == ite(hdrEnds(rest), acc, hdrParents(ite(splitHead(nextTok(rest), " ") == "parent", seqAppend(acc, unhex(splitTail(nextTok(rest), " "))), acc), nextRest(rest)))
+
+// The header lines commit() writes, read back (proved once from the definitions and the string theory): a "tree" line sets
+// the snapshot, a "parent" line adds a parent, an "author"/"committer" line without a line break changes neither, and
+// the blank line ends the header whatever follows it.
+//@ lemma [hdr-tree-line] {C05,C02} forall acc string, t string, rest string {hdrTree(acc, "tree " + (hex(t) + ("\n" + rest)))} :: scanStep("tree " + (hex(t) + ("\n" + rest))) && hdrTree(acc, "tree " + (hex(t) + ("\n" + rest))) == hdrTree(t, rest)
+//@ lemma [hdr-tree-line-parents] {C02} forall ps []sha.SHA1, t string, rest string {hdrParents(ps, "tree " + (hex(t) + ("\n" + rest)))} :: scanStep("tree " + (hex(t) + ("\n" + rest))) && hdrParents(ps, "tree " + (hex(t) + ("\n" + rest))) == hdrParents(ps, rest)
+//@ lemma [hdr-parent-line] {C05,C02} forall acc string, p string, rest string {hdrTree(acc, "parent " + (p + ("\n" + rest)))} :: !contains(p, "\n") ==> scanStep("parent " + (p + ("\n" + rest))) && hdrTree(acc, "parent " + (p + ("\n" + rest))) == hdrTree(acc, rest)
+//@ lemma [hdr-parent-line-parents] {C02} forall ps []sha.SHA1, p string, rest string {hdrParents(ps, "parent " + (p + ("\n" + rest)))} :: !contains(p, "\n") ==> scanStep("parent " + (p + ("\n" + rest))) && hdrParents(ps, "parent " + (p + ("\n" + rest))) == hdrParents(seqAppend(ps, unhex(p)), rest)
+//@ lemma [hdr-author-line] {C05,C02} forall acc string, v string, rest string {hdrTree(acc, "author " + (v + ("\n" + rest)))} :: !contains(v, "\n") ==> scanStep("author " + (v + ("\n" + rest))) && hdrTree(acc, "author " + (v + ("\n" + rest))) == hdrTree(acc, rest)
+//@ lemma [hdr-author-line-parents] {C02} forall ps []sha.SHA1, v string, rest string {hdrParents(ps, "author " + (v + ("\n" + rest)))} :: !contains(v, "\n") ==> scanStep("author " + (v + ("\n" + rest))) && hdrParents(ps, "author " + (v + ("\n" + rest))) == hdrParents(ps, rest)
+//@ lemma [hdr-committer-line] {C05,C02} forall acc string, v string, rest string {hdrTree(acc, "committer " + (v + ("\n" + rest)))} :: !contains(v, "\n") ==> scanStep("committer " + (v + ("\n" + rest))) && hdrTree(acc, "committer " + (v + ("\n" + rest))) == hdrTree(acc, rest)
+//@ lemma [hdr-committer-line-parents] {C02} forall ps []sha.SHA1, v string, rest string {hdrParents(ps, "committer " + (v + ("\n" + rest)))} :: !contains(v, "\n") ==> scanStep("committer " + (v + ("\n" + rest))) && hdrParents(ps, "committer " + (v + ("\n" + rest))) == hdrParents(ps, rest)
+//@ lemma [hdr-end] {C05,C02} forall acc string, rest string {hdrTree(acc, "\n" + rest)} :: scanStep("\n" + rest) && hdrTree(acc, "\n" + rest) == acc
+//@ lemma [hdr-end-parents] {C02} forall ps []sha.SHA1, rest string {hdrParents(ps, "\n" + rest)} :: scanStep("\n" + rest) && hdrParents(ps, "\n" + rest) == ps
+
+// the same, for the places where commit()'s format string runs a line end and the next field name together
+// ("\nauthor ", "\nparent ", "\ncommitter ", "\n\n"): each is one line lemma after splitting that literal
+//@ lemma [jn-tree-author] {C02,C05} forall acc string, t string, rest string {hdrTree(acc, "tree " + (hex(t) + ("\nauthor " + rest)))} :: hdrTree(acc, "tree " + (hex(t) + ("\nauthor " + rest))) == hdrTree(t, "author " + rest)
+//@ lemma [jn-tree-parent] {C02,C05} forall acc string, t string, rest string {hdrTree(acc, "tree " + (hex(t) + ("\nparent " + rest)))} :: hdrTree(acc, "tree " + (hex(t) + ("\nparent " + rest))) == hdrTree(t, "parent " + rest)
+//@ lemma [jn-parent-author] {C02,C05} forall acc string, p string, rest string {hdrTree(acc, "parent " + (p + ("\nauthor " + rest)))} :: !contains(p, "\n") ==> hdrTree(acc, "parent " + (p + ("\nauthor " + rest))) == hdrTree(acc, "author " + rest)
+//@ lemma [jn-author-committer] {C02,C05} forall acc string, v string, rest string {hdrTree(acc, "author " + (v + ("\ncommitter " + rest)))} :: !contains(v, "\n") ==> hdrTree(acc, "author " + (v + ("\ncommitter " + rest))) == hdrTree(acc, "committer " + rest)
+//@ lemma [jn-committer-end] {C02,C05} forall acc string, v string, rest string {hdrTree(acc, "committer " + (v + ("\n\n" + rest)))} :: !contains(v, "\n") ==> hdrTree(acc, "committer " + (v + ("\n\n" + rest))) == hdrTree(acc, "\n" + rest)
+//@ lemma [jn-tree-author-parents] {C02,C05} forall ps []sha.SHA1, t string, rest string {hdrParents(ps, "tree " + (hex(t) + ("\nauthor " + rest)))} :: hdrParents(ps, "tree " + (hex(t) + ("\nauthor " + rest))) == hdrParents(ps, "author " + rest)
+//@ lemma [jn-tree-parent-parents] {C02,C05} forall ps []sha.SHA1, t string, rest string {hdrParents(ps, "tree " + (hex(t) + ("\nparent " + rest)))} :: hdrParents(ps, "tree " + (hex(t) + ("\nparent " + rest))) == hdrParents(ps, "parent " + rest)
+//@ lemma [jn-parent-author-parents] {C02,C05} forall ps []sha.SHA1, p string, rest string {hdrParents(ps, "parent " + (p + ("\nauthor " + rest)))} :: !contains(p, "\n") ==> hdrParents(ps, "parent " + (p + ("\nauthor " + rest))) == hdrParents(seqAppend(ps, unhex(p)), "author " + rest)
+//@ lemma [jn-author-committer-parents] {C02,C05} forall ps []sha.SHA1, v string, rest string {hdrParents(ps, "author " + (v + ("\ncommitter " + rest)))} :: !contains(v, "\n") ==> hdrParents(ps, "author " + (v + ("\ncommitter " + rest))) == hdrParents(ps, "committer " + rest)
+//@ lemma [jn-committer-end-parents] {C02,C05} forall ps []sha.SHA1, v string, rest string {hdrParents(ps, "committer " + (v + ("\n\n" + rest)))} :: !contains(v, "\n") ==> hdrParents(ps, "committer " + (v + ("\n\n" + rest))) == hdrParents(ps, "\n" + rest)
+
+// the two texts commit() writes, read back whole (from the lemmas above): the snapshot is the one named on the first
+// line and the parents are none, or the one named on the second line, whatever the message holds
+//@ lemma [commit-text-tree] {C02,C05} forall t string, a string, c string, rest string {hdrTree("", "tree " + (hex(t) + ("\nauthor " + (a + ("\ncommitter " + (c + ("\n\n" + rest)))))))} :: !contains(a, "\n") && !contains(c, "\n") ==> hdrTree("", "tree " + (hex(t) + ("\nauthor " + (a + ("\ncommitter " + (c + ("\n\n" + rest))))))) == t
+//@ lemma [commit-text-tree-parent] {C02,C05} forall t string, p string, a string, c string, rest string {hdrTree("", "tree " + (hex(t) + ("\nparent " + (p + ("\nauthor " + (a + ("\ncommitter " + (c + ("\n\n" + rest)))))))))} :: !contains(p, "\n") && !contains(a, "\n") && !contains(c, "\n") ==> hdrTree("", "tree " + (hex(t) + ("\nparent " + (p + ("\nauthor " + (a + ("\ncommitter " + (c + ("\n\n" + rest))))))))) == t
+//@ lemma [commit-text-parents] {C02} forall ps []sha.SHA1, t string, a string, c string, rest string {hdrParents(ps, "tree " + (hex(t) + ("\nauthor " + (a + ("\ncommitter " + (c + ("\n\n" + rest)))))))} :: !contains(a, "\n") && !contains(c, "\n") ==> hdrParents(ps, "tree " + (hex(t) + ("\nauthor " + (a + ("\ncommitter " + (c + ("\n\n" + rest))))))) == ps
+//@ lemma [commit-text-parents-parent] {C02} forall ps []sha.SHA1, t string, p string, a string, c string, rest string {hdrParents(ps, "tree " + (hex(t) + ("\nparent " + (p + ("\nauthor " + (a + ("\ncommitter " + (c + ("\n\n" + rest)))))))))} :: !contains(p, "\n") && !contains(a, "\n") && !contains(c, "\n") ==> hdrParents(ps, "tree " + (hex(t) + ("\nparent " + (p + ("\nauthor " + (a + ("\ncommitter " + (c + ("\n\n" + rest))))))))) == seqAppend(ps, unhex(p))
+
 //@ func NewCommit
 //@   returns c, err
 //@   modifies $rdpos, $screst, $sctok
 //@   requires [obj] o != nil
+//@   ensures [tree] {C05,C02,C12} err == nil ==> string(c.Tree) == hdrTree("", string(o.Data))
+//@   ensures [parents] {C02,C14,C12} err == nil ==> c.Parents == hdrParents(emptyLike(c.Parents), string(o.Data))
 //@   ensures [result] {C02,C12,C14,C19} err == nil ==> c != nil && fresh(c) && c.Object == o
 //@   ensures [ids] {C14,C19} err == nil ==> len(c.Tree) >= 20 && (forall i int :: 0 <= i && i < len(c.Parents) ==> len(c.Parents[i]) >= 20)
 //@   ensures [nil] err != nil ==> c == nil
 //@   ensures [kind] {C19} o.Type != CommitObject ==> err != nil
 //@   loop 0:
 //@     invariant commit != nil && fresh(commit) && commit.Object == o
+//@     invariant [tree-so-far] hdrTree("", string(o.Data)) == hdrTree(string(commit.Tree), scRest(scanner))
+//@     invariant [parents-so-far] hdrParents(emptyLike(commit.Parents), string(o.Data)) == hdrParents(commit.Parents, scRest(scanner))
 //@     invariant len(commit.Tree) == 0 || len(commit.Tree) >= 20
 //@     invariant forall i int :: 0 <= i && i < len(commit.Parents) ==> len(commit.Parents[i]) >= 20
 //@   loop 1:
